@@ -6,8 +6,8 @@ import os
 VERIF = os.path.normpath(os.path.join(os.path.dirname(os.path.abspath(__file__)), ".."))
 
 NOTE_COMMON = ("Trusted base: Lean 4.33 kernel (axioms propext, Classical.choice, Quot.sound only; no sorry/native_decide/bv_decide); "
-               "harness/extract.py regenerates all tables/constants/literals from /repo on every run and harness/pytrans.py translates 28 "
-               "function bodies, proved equal to the model (Props/*Gen.lean); the rest of the hand-written control-flow model is tied to the "
+               "harness/extract.py regenerates all tables/constants/literals from /repo on every run and harness/pytrans.py translates 33 "
+               "function bodies (incl. the state-machine core of HdlcFrameReader), proved equal to the model (Props/*Gen*.lean); the rest of the hand-written control-flow model is tied to the "
                "Python code by a differential correspondence check (sampled, not proved). ")
 
 CHECKS = {
